@@ -594,6 +594,9 @@ func run(d *testdb.DB, kind int, o Op, v variant) Outcome {
 			oc = clause.OnConflict{Columns: []clause.Column{{Name: "id"}}, DoUpdates: clause.AssignmentColumns(append([]string(nil), o.Subset...))}
 		case "updates-code":
 			oc = clause.OnConflict{Columns: []clause.Column{{Name: "code"}}, DoUpdates: clause.AssignmentColumns(append([]string(nil), o.Subset...))}
+		case "updates-any":
+			// no conflict target: whichever uniqueness the proposed row violates (key or unique column) is handled
+			oc = clause.OnConflict{DoUpdates: clause.AssignmentColumns(append([]string(nil), o.Subset...))}
 		case "updateall":
 			oc = clause.OnConflict{UpdateAll: true}
 		case "updateall-code":
@@ -824,6 +827,12 @@ func expect(m *Model, o Op) (exp Outcome) {
 				return Outcome{Err: true} // primary-key conflict is not the upsert target
 			}
 			target = byCode
+		} else if o.Rule == "updates-any" {
+			// the generator keeps at most one conflicting row
+			target = byID
+			if target == nil {
+				target = byCode
+			}
 		} else {
 			if byID == nil {
 				return Outcome{Err: true} // unique(code) conflict is not the upsert target
@@ -840,7 +849,7 @@ func expect(m *Model, o Op) (exp Outcome) {
 		switch o.Rule {
 		case "nothing-id":
 			return Outcome{RowsAffected: 0, RAValid: true}
-		case "updates-id", "updates-code":
+		case "updates-id", "updates-code", "updates-any":
 			for _, c := range o.Subset {
 				switch c {
 				case "name":
@@ -1333,7 +1342,7 @@ func genOp(t *rapid.T, m *Model) Op {
 		o.Deref = rapid.IntRange(0, 5).Draw(t, "deref") == 0
 	case "upsert":
 		o.V = genVal(t, "v", m.Kind)
-		o.Rule = rapid.SampledFrom([]string{"nothing", "nothing-id", "updates-id", "updates-code", "updateall", "updateall-code", "assign-id", "assign-code"}).Draw(t, "rule")
+		o.Rule = rapid.SampledFrom([]string{"nothing", "nothing-id", "updates-id", "updates-code", "updates-any", "updateall", "updateall-code", "assign-id", "assign-code"}).Draw(t, "rule")
 		if strings.HasPrefix(o.Rule, "updates") || strings.HasPrefix(o.Rule, "assign") {
 			all := []string{"name", "age", "note"}
 			mask := rapid.IntRange(1, 7).Draw(t, "subset")
